@@ -36,7 +36,7 @@ MODES = ['-l', '-a', '-n', '--plid', '--src', '--src-exclude', '-j']
 @st.composite
 def junk(draw, tier):
     kind = draw(st.sampled_from(['empty', 'prefix', 'corrupt', 'corrupt', 'random', 'deep-json', 'subdir',
-                                 'bad-substructure', 'non-ascii']))
+                                 'bad-substructure', 'non-ascii', 'bad-header-id', 'bad-header-id', 'no-primary-src']))
     if kind == 'empty':
         return {'kind': kind, 'data': b''}
     if kind == 'random':
@@ -50,6 +50,28 @@ def junk(draw, tier):
         pel = M.minimal_pel([M.default_src(), {'k': 'UD', 'ver': 1, 'sub': 1, 'comp': 0x2000, 'data': payload}],
                             ph=M.default_ph(eid=0x61000000, creator=ord('O')))
         return {'kind': kind, 'data': M.encode(pel)}
+    if kind == 'bad-header-id':
+        # one of the two mandatory headers does not carry its id; everything else is intact
+        pel = draw(D.dir_pel(0x64000000, selectable=draw(st.booleans()) or None))
+        data = bytearray(M.encode(pel))
+        off = draw(st.sampled_from([0, 1, 48, 48, 49, 49]))
+        data[off] = draw(st.sampled_from([0x00, 0x58, 0x75, 0xFF, data[off] ^ 0x20]))
+        if bytes(data[0:2]) == b'PH' and bytes(data[48:50]) == b'UH':
+            data[48] = 0x58
+        return {'kind': kind, 'data': bytes(data)}
+    if kind == 'no-primary-src':
+        # headers intact but the section count lies / the SRC id is damaged
+        pel = M.minimal_pel([M.default_src(), {'k': 'UD', 'ver': 1, 'sub': 1, 'comp': 0x2000, 'data': b'{}'}],
+                            ph=M.default_ph(eid=0x65000000))
+        data = bytearray(M.encode(pel))
+        how = draw(st.sampled_from(['count', 'src-id', 'count-high']))
+        if how == 'count':
+            data[27] = draw(st.integers(0, 2))
+        elif how == 'count-high':
+            data[27] = draw(st.integers(5, 255))
+        else:
+            data[72] = draw(st.sampled_from([0x00, 0x51, 0x70]))
+        return {'kind': kind, 'data': bytes(data)}
     if kind == 'non-ascii':
         # bytes that are not valid UTF-8 where the decoder expects text (a different exception type than
         # the range-check failures of truncated files)
@@ -91,6 +113,15 @@ def junk(draw, tier):
 
 
 @st.composite
+def junk_header(draw, tier):
+    pel = draw(D.dir_pel(0x66000000, selectable=draw(st.booleans()) or None))
+    data = bytearray(M.encode(pel))
+    off = draw(st.sampled_from([48, 49, 0, 1]))
+    data[off] = draw(st.sampled_from([0x00, 0x58, 0x75, 0xFF]))
+    return {'kind': 'bad-header-id', 'data': bytes(data)}
+
+
+@st.composite
 def case_strategy(draw, tier):
     ngood = draw(st.integers(1, 6))
     eids = D.distinct_eids(draw, ngood)
@@ -102,7 +133,15 @@ def case_strategy(draw, tier):
     # names: good files get letters b, d, f, ...; junk is slotted before / between / after
     junks = draw(st.lists(junk(tier), min_size=1, max_size=5))
     slots = [draw(st.integers(0, ngood)) for _ in junks]
-    return {'good': good, 'junk': junks, 'slots': slots, 'mode': draw(st.sampled_from(MODES)),
+    sel = draw(D.selection()) if draw(st.booleans()) else {'on': [False] * 6, 'groups': []}
+    mode = draw(st.sampled_from(MODES + ['-n']))
+    if mode == '-n' and draw(st.booleans()):
+        # --every-pel skips the selection test: the header checks alone must keep junk out of the count
+        sel = {'on': [True] + list(sel['on'][1:]), 'groups': sel['groups']}
+        junks = junks + [draw(junk(tier)) for _ in range(0)] + [j for j in [draw(junk_header(tier))]]
+        slots = slots + [draw(st.integers(0, ngood))]
+    return {'good': good, 'junk': junks, 'slots': slots, 'mode': mode, 'sel': sel,
+            'rev': draw(st.integers(0, 3)) == 0,
             'hex': draw(st.integers(0, 3)) == 0, 'exclude': draw(st.sampled_from([['BD8D1234'], [], ['11002200', 'BC8A0001']]))}
 
 
@@ -129,6 +168,9 @@ def mode_argv(case, d, outdir, exfile):
         argv += ['-j', '-o', outdir]
     if case['hex'] and m != '-n' and m != '-j':
         argv.append('-x')
+    if case.get('rev') and m != '-j':
+        argv.append('-r')
+    argv += D.selection_argv(case.get('sel') or {'on': [False] * 6, 'groups': []})
     return argv
 
 
@@ -201,7 +243,15 @@ def junk_is_invisible(case, note):
         solo, solo_written = run_mode(case, {name: jk['data']}, note)
         # whatever the directory contains, the output must be well formed
         check_wellformed_output(case, solo, what + ' (directory holding only %s file %s)' % (jk['kind'], name))
-        if reports_nothing(case, solo, solo_written):
+        nothing = reports_nothing(case, solo, solo_written)
+        dd = jk['data']
+        if not nothing and (len(dd) < 72 or dd[0:2] != b'PH' or dd[48:50] != b'UH'):
+            # independent of what the tool thinks: a file without both headers holds no PEL
+            raise Violation('C09.phantom', '%s reports a PEL for the file %s, which has no valid Private + User Header '
+                            '(%d bytes, starts %s, bytes 48..49 %s): %r'
+                            % (what, name, len(dd), dd[0:2].hex(), dd[48:50].hex(), solo.out[:200]),
+                            sig='C09.phantom:%s' % case['mode'])
+        if nothing:
             kept[name] = jk['data']
             kinds.append(jk['kind'])
         else:
